@@ -36,6 +36,15 @@ def cast_variants(cases, rng):
     return out
 
 
+def link_variants(cases, rng):
+    """cast variants plus, for link cases, a second consumer with the mirrored layout exchanging first / second"""
+    out = cast_variants(cases, rng)
+    for c in cases:
+        if c.get("what") == "link" and not c.get("st") and not c.get("stk") and c["dst"]["kind"] != "esri" and rng.random() < 0.3:
+            out.append(dict(c, prime=rng.choice(["first", "second"])))
+    return out
+
+
 def check(pid, tier):
     ev = Evidence(pid, tier)
     out_lines, violations, machinery = [], [], []
@@ -43,7 +52,7 @@ def check(pid, tier):
         traces, _ = run_fn(pid, ev, violations, machinery, "GridEmit", "Grid_Trace", RUNNER, clause_property,
                            "grid-case", emit_env={"WHAT": what}, cap=qcap if tier == "quick" else tcap,
                            nontrivial=lambda t: len((t["case"].get("L") or t["case"].get("src"))["dims"]) >= 2,
-                           derive=cast_variants)
+                           derive=link_variants)
         if what == "link":
             n_ok = sum(1 for t in traces if t["obs"].get("res") == "ok")
             if n_ok == 0:
